@@ -21,6 +21,8 @@ pub enum Step {
     Extend(Vec<(f64, f64, bool)>),
     /// merge (+ or +=) with a state built from these values
     Merge(Vec<(f64, f64, bool)>, bool),
+    /// merge the state with itself k times (counts beyond 2^32 are reachable only this way)
+    Double(u8),
 }
 #[derive(Clone, Debug, Serialize, Deserialize)]
 pub struct Case {
@@ -202,6 +204,16 @@ fn apply<S: St>(s: &mut S, steps: &[Step]) -> Result<(), String> {
                     s.add(*x, *y, *f)?;
                 }
             }
+            Step::Double(k) => {
+                // keep counts far below usize::MAX: a state that has already grown is not doubled again
+                for _ in 0..(*k).min(40) {
+                    if s.count() as u64 >= (1u64 << 40) {
+                        break;
+                    }
+                    let c = s.clone();
+                    s.merge(c, true);
+                }
+            }
             Step::Merge(v, assign) => {
                 let mut o = S::new();
                 for (x, y, f) in v {
@@ -248,6 +260,9 @@ fn state_case<S: St>(c: &Case, obs: &mut Obs) -> PResult {
     }
     let nz = dbg.split("compensation: ").skip(1).any(|t| !(t.starts_with("0.0") || t.starts_with("-0.0")));
     obs.class(&format!("state/{ty}"));
+    if s.count() as u64 >= (1u64 << 32) {
+        obs.class("state-with-count>=2^32");
+    }
     if nz {
         obs.class("state-with-nonzero-compensation");
     }
@@ -348,6 +363,7 @@ fn step() -> impl Strategy<Value = Step> {
         4 => obs_value().prop_map(|(x, y, f)| Step::Append(x, y, f)),
         3 => prop::collection::vec(obs_value(), 0..10).prop_map(Step::Extend),
         2 => (prop::collection::vec(obs_value(), 0..8), any::<bool>()).prop_map(|(v, a)| Step::Merge(v, a)),
+        1 => prop_oneof![0u8..4, 28u8..36].prop_map(Step::Double),
     ]
 }
 fn level() -> impl Strategy<Value = f64> {
@@ -464,7 +480,7 @@ fn main() {
     for t in TYPES {
         run.require_class(&format!("state/{t}"));
     }
-    for c in ["state-with-nonzero-compensation", "Interval<f64>/upper", "Interval<i32,String>/lower", "Confidence/upper one-sided", "feature_build/std_serde", "feature_build/all"] {
+    for c in ["state-with-count>=2^32", "state-with-nonzero-compensation", "Interval<f64>/upper", "Interval<i32,String>/lower", "Confidence/upper one-sided", "feature_build/std_serde", "feature_build/all"] {
         run.require_class(c);
     }
     run.assumptions.push("serde_json is built with float_roundtrip (otherwise its parser may be 1 ulp off and the harness, not the crate, would fail); CBOR via ciborium carries floats bit-exactly".into());
